@@ -46,6 +46,12 @@ def gen_seq(rng, kind, length):
             s = 1.0 + 0.5 ** k                          # exactly representable geometric
         elif kind == 6:
             s = L + a * q ** k + 0.3 * q2 ** k + 0.1 * q3 ** k
+        elif kind == 8:
+            # middle term small compared with the differences: |e_1 (1/d2 - 1/d1)| sweeps the decade around the irregular-behaviour
+            # threshold 1e-4 that Dea shares with dea3 (m - 1, m, m + 1/2, ...: limit m + 1)
+            if k == 0:
+                m8 = float(rng.choice([-1, 1]) * 10.0 ** rng.uniform(-5.5, -2.5))
+            s = m8 + 1.0 - 2.0 * 0.5 ** k
         else:
             s = float(np.sum(1.0 / np.arange(1, k + 2) ** 2))   # slowly convergent series
         out.append(float(s))
@@ -102,7 +108,7 @@ def search(ctx, N):
     ctx_violation = once
     for k in range(N):
         limexp = int(rng.integers(3, 61)) if k % 2 else int(rng.integers(3, 9))
-        kind = int(rng.integers(0, 8))
+        kind = int(rng.integers(0, 10))
         length = int(rng.integers(1, 201)) if k % 4 == 0 else int(rng.integers(3, 60))
         seq = gen_seq(rng, kind, length)
         d, outs, raised = run_dea(limexp, seq)
